@@ -176,7 +176,7 @@ impl C16 {
         let o = match o {
             Ok(o) => o,
             Err(e) => {
-                v("cannot-run-n2", format!("cannot run {}: {}", n2_binary().display(), e));
+                out.viols.push(Viol::new("INFRA", "cannot-run-n2", format!("cannot run {}: {}", n2_binary().display(), e)));
                 return out;
             }
         };
@@ -349,7 +349,7 @@ impl C16 {
         let mut v = |k: &str, m: String| out.viols.push(Viol::new("C16", k, m));
         let o = Command::new(n2_binary()).args(["-j", "1"]).current_dir(&dir).stdin(Stdio::null()).env_remove("N2AGENT_DRY").output();
         let Ok(o) = o else {
-            v("cannot-run-n2", "cannot run the n2 binary".into());
+            out.viols.push(Viol::new("INFRA", "cannot-run-n2", "cannot run the n2 binary".to_string()));
             return out;
         };
         let text = String::from_utf8_lossy(&o.stdout).into_owned();
